@@ -307,8 +307,10 @@ class SandboxedEnvironment(Environment):
                 else:
                     # Check the attribute first: a bound str.format stored
                     # under an unsafe name must not be handed out wrapped.
-                    if not self.is_safe_attribute(obj, argument, value):
-                        return self.unsafe_undefined(obj, argument)
+                    # Use the name that was fetched: a str subclass can make
+                    # str(argument) differ from what argument looks like.
+                    if not self.is_safe_attribute(obj, attr, value):
+                        return self.unsafe_undefined(obj, attr)
                     fmt = self.wrap_str_format(value)
                     if fmt is not None:
                         return fmt
